@@ -44,7 +44,7 @@ Section SortBy.
 End SortBy.
 
 (* sort.Strings / slices.Sorted on strings *)
-Definition sort : list bytes -> list bytes := sort_by (fun x => x) bytes_leb.
+Definition sort_strings : list bytes -> list bytes := sort_by (fun x => x) bytes_leb.
 
 (* ---------- Go maps with string keys: association lists ---------- *)
 
@@ -120,7 +120,6 @@ Record world := mk_world { w_moddir : bytes; w_pkgs : list pkg }.   (* w_pkgs: l
 
 Record args := mk_args {
   a_globals : alist bytes;
-  a_entry : list bytes;     (* package paths of the entrypoints, in the order given *)
   a_base : bytes;           (* OutputFileBaseName *)
   a_all : bool;
   a_force : bool
@@ -235,7 +234,7 @@ Section Exec.
 
   Definition dispatch (a : args) (p : pkg) (ptags : alist bytes) (g : gen) : list call :=
     let t := type_table p in
-    let names := sort (keys (o _ [bs "names"; pk_path p; g_name g] t)) in
+    let names := sort_strings (keys (o _ [bs "names"; pk_path p; g_name g] t)) in
     flat_map (fun n => match lookup n t with
                        | Some d => dispatch_one a p ptags g d
                        | None => []        (* unreachable: n is a key of t *)
@@ -245,7 +244,7 @@ Section Exec.
   Definition filename (a : args) (gname : bytes) : bytes := a_base a ++ bs "." ++ gname ++ bs ".go".
 
   Definition sorted_entries (site : list bytes) (m : alist bytes) : list (bytes * bytes) :=
-    map (fun k => (k, match lookup k m with Some v => v | None => [] end)) (sort (keys (o _ site m))).
+    map (fun k => (k, match lookup k m with Some v => v | None => [] end)) (sort_strings (keys (o _ site m))).
 
   Definition mk_file (p : pkg) (gname : bytes) (out : genout) : gfile :=
     mk_gfile (pk_name p) gname (sorted_entries [bs "imports"; pk_path p; gname] (go_imports out)) (go_body out).
@@ -300,16 +299,17 @@ Section Exec.
     end.
 
   (* --- load.go:56-118 (tables filled in registration order) --- *)
-  Definition local_pkgs (a : args) (w : world) : alist bool :=
-    fold_left (fun m p => aset (pk_path p) (mem (pk_path p) (a_entry a)) m) (o _ [bs "reg"] (w_pkgs w)) [].
+  (* [entry]: package paths of the entrypoints, in the order given (directPkgPaths) *)
+  Definition local_pkgs (entry : list bytes) (w : world) : alist bool :=
+    fold_left (fun m p => aset (pk_path p) (mem (pk_path p) entry) m) (o _ [bs "reg"] (w_pkgs w)) [].
 
   Definition sum_data (w : world) : alist bytes :=
     fold_left (fun m p => aset (pk_path p) (pk_hash p) m) (o _ [bs "reg"] (w_pkgs w)) [].
 
   (* --- load.go:134-142 --- *)
-  Definition sorted_local (a : args) (w : world) : list (bytes * bool) :=
-    let m := local_pkgs a w in
-    map (fun k => (k, match lookup k m with Some b => b | None => false end)) (sort (keys (o _ [bs "local"] m))).
+  Definition sorted_local (entry : list bytes) (w : world) : list (bytes * bool) :=
+    let m := local_pkgs entry w in
+    map (fun k => (k, match lookup k m with Some b => b | None => false end)) (sort_strings (keys (o _ [bs "local"] m))).
 
   Definition find_pkg (k : bytes) (w : world) : option pkg :=
     find (fun p => bytes_eqb k (pk_path p)) (w_pkgs w).
@@ -349,8 +349,8 @@ Section Exec.
     end.
 
   (* --- context.go:95-129 --- *)
-  Definition plan (a : args) (w : world) (gens : list gen) (f : fs) : option (list effect * calllog) :=
-    let sl := sorted_local a w in
+  Definition plan (a : args) (entry : list bytes) (w : world) (gens : list gen) (f : fs) : option (list effect * calllog) :=
+    let sl := sorted_local entry w in
     let cur := sum_data w in
     let prev :=
       if a_all a && existsb snd sl then
@@ -362,8 +362,8 @@ Section Exec.
         Some (if a_all a then es ++ [EWrite (w_moddir w, sum_name) (sum_bytes cur)] else es, log)
     end.
 
-  Definition run (a : args) (w : world) (gens : list gen) (f : fs) : option (fs * calllog) :=
-    match plan a w gens f with
+  Definition run (a : args) (entry : list bytes) (w : world) (gens : list gen) (f : fs) : option (fs * calllog) :=
+    match plan a entry w gens f with
     | None => None
     | Some (es, log) => Some (apply es f, log)
     end.
